@@ -18,7 +18,8 @@ DETAIL = 0
 RULE = ("programs of 2-12 lines over name pools with shared prefixes (a / a b / a b c, total / total cost, my var / my / "
         "var, ...), random letter case; line kinds: numeric assignment (literals, uses, self-reference, + - * and "
         "parentheses, negated uses), opaque assignment (percent, money, duration, date, time, unit), copy y = x, use, "
-        "failing assignment (evaluation error or parse error), failing use, blank line, use next to a plain word; one "
+        "failing assignment (evaluation error or parse error), failing use, blank line, use next to a plain word or "
+        "overlapping a partial match of the same name (a a b); one "
         "exec of the whole text or a re-used session fed in 1-3 chunks; non-trivial = a later line reads a binding made "
         "by an earlier line; distinct = distinct histories")
 ASSUMPTIONS = [
@@ -220,19 +221,6 @@ def reference(lines, kinds):
 
 
 # ---------------------------------------------------------------- classification of the listed defects
-def naive_find(toks, name):
-    """types.rs:321-345 find_location: the scan does not retry the current token after a partial match"""
-    ri, start = 0, 0
-    for target, t in enumerate(toks):
-        if t == ("word", name[ri]):
-            ri += 1
-        else:
-            ri, start = 0, target + 1
-        if ri == len(name):
-            return start
-    return None
-
-
 def true_find(toks, name):
     for i in range(len(toks)):
         if occurs_at(toks, i, name):
@@ -258,7 +246,7 @@ def substitute(toks, names, find):
 def taints(lines, kinds):
     """first line from which each listed defect can influence the results"""
     bound, ghosts, keys = set(), set(), {}
-    t = {"ghost": None, "restart": None, "collision": None}
+    t = {"ghost": None, "collision": None}
     for idx, (line, kind) in enumerate(zip(lines, kinds)):
         lhs, eq, rhs = line.partition("=")
         body = rhs if eq else line
@@ -271,11 +259,8 @@ def taints(lines, kinds):
         reg = bound | ghosts
         a = substitute(toks, bound, true_find)
         b = substitute(toks, reg, true_find)
-        c = substitute(toks, reg, naive_find)
         if a != b and t["ghost"] is None:
             t["ghost"] = idx
-        if b != c and t["restart"] is None:
-            t["restart"] = idx
         if name is not None:
             key = "".join(name)
             if key in keys and keys[key] != name and t["collision"] is None:
@@ -409,7 +394,12 @@ def gen_program(rng, collide=False):
             j = n[0] if rng.random() < 0.4 else rng.choice(JUNK + [w for m in pool for w in m])
             if (j,) in known:
                 j = rng.choice(JUNK)
-            lines.append((j + " " + show(rng, n)) if rng.random() < 0.6 else (show(rng, n) + " " + j))
+            if len(n) > 1 and rng.random() < 0.35 and (n[0],) not in known:
+                # an occurrence overlapping a partial match of the same name: `a a b`, `a b a b c`
+                k = rng.randint(1, len(n) - 1)
+                lines.append(show(rng, n[:k]) + " " + show(rng, n))
+            else:
+                lines.append((j + " " + show(rng, n)) if rng.random() < 0.6 else (show(rng, n) + " " + j))
             kinds.append("num")
     return lines, kinds
 
@@ -441,6 +431,9 @@ CORPUS = [
     (["x = 10%", "x", "y = 3 hours", "y", "t = 11:30", "t", "d = 12 january 2021", "d", "m = 10 usd", "m", "k = 3 km", "k",
       "kk = k", "k = 1", "kk"], ["opaque", "num"] * 6 + ["num", "num", "num"]),
     (["total = 5", "TOTAL + total", "ToTaL cost = total * 2", "total cost", "total", "Total  Cost - TOTAL"], None),
+    # occurrences overlapping a failed partial match (fixed in /repo 542d9d0)
+    (["a b = 3", "a a b", "foo a b", "a a b a b", "a b c = 5", "a b a b c", "a a b a b c * 2", "a a a b"], None),
+    (["my var = 4", "my my var", "my my my var + 1", "2 * my MY Var"], None),
 ]
 
 
